@@ -85,7 +85,8 @@ def wJ : NType :=
   { name := "B", file := "t.shootnew.b.go", gs := [("name", false, true), ("age", true, false), ("z", true, true)],
     tree := .field { name := "name", ptype := "string" } (.field { name := "age" } (.field { name := "z" } .nil)) }
 /-- the package after E was generated with `-getset`: EGetter / ESetter are visible -/
-def wFiles : Disk := [{ name := "t.shootnew.e.go", defs := [("EGetter", ["Age", "Name"]), ("ESetter", ["SetAge", "SetName"])] }]
+def wFiles : Disk :=
+  [{ name := "t.shootnew.e.go", defs := [("EGetter", { methods := ["Age", "Name"] }), ("ESetter", { methods := ["SetAge", "SetName"] })] }]
 
 /-- F_getsetLeak: `shoot new -getset -json -type=E,A,B`, A embeds E – B's MarshalJSON calls a getter and
     UnmarshalJSON a setter that B does not have -/
